@@ -1,27 +1,27 @@
 #!/bin/bash
-# usage: seedverify2.sh ID N DEMODIR "C01 C15"
+# usage: [SEED_ROOT=/tmp/seed2] seedverify2.sh ID N DEMODIR "C01 C15" [LABEL]   (LABEL: number the seed is stored under, default N)
 # Like seedverify.sh, but runs the checks against the scratch worktree (VERIF_REPO) with a private copy of the checker
 # binary, so that /repo and /verif/evidence stay untouched and several seeds can be processed while other work goes on.
 set -u
 export GOFLAGS=-mod=mod GOPROXY=off GOSUMDB=off GOTOOLCHAIN=local
-ID=$1; N=$2; DEMODIR=$3; CHECKS=$4
-OUT=/tmp/seed/$ID/out; PATCH=$OUT/change$N.diff
-WT=/tmp/sv/${ID}_$N; LOG=/tmp/sv/${ID}_$N.log
+ID=$1; N=$2; DEMODIR=$3; CHECKS=$4; L=${5:-$2}
+OUT=${SEED_ROOT:-/tmp/seed}/$ID/out; PATCH=$OUT/change$N.diff
+WT=/tmp/sv/${ID}_$L; LOG=/tmp/sv/${ID}_$L.log
 mkdir -p /tmp/sv; rm -rf $WT; git -C /repo worktree prune
 git -C /repo worktree add --detach $WT HEAD -q || exit 9
 : > $LOG
 mkdir -p $WT/$DEMODIR; for f in $OUT/demo$N/*; do [ -f "$f" ] && case "$f" in *.go) cp "$f" $WT/$DEMODIR/;; esac; done
 ( cd $WT && go test -vet=off -count=1 ./$DEMODIR ) >> $LOG 2>&1; CLEAN=$?
-( cd $WT && git apply $PATCH ) >> $LOG 2>&1 || { echo "$ID/$N: PATCH DOES NOT APPLY"; git -C /repo worktree remove --force $WT; exit 8; }
+( cd $WT && git apply $PATCH ) >> $LOG 2>&1 || { echo "$ID/$L: PATCH DOES NOT APPLY"; git -C /repo worktree remove --force $WT; exit 8; }
 ( cd $WT && go test -vet=off -count=1 ./$DEMODIR ) >> $LOG 2>&1; WITH=$?
 for f in $OUT/demo$N/*.go; do rm -f $WT/$DEMODIR/$(basename $f); done
 ( cd $WT && go build ./... ) >> $LOG 2>&1; BUILD=$?
 ( cd $WT && go test -vet=off -count=1 -timeout 25m ./... ) > $LOG.suite 2>&1; SUITE=$?
-echo "$ID/$N: demo clean=$CLEAN (want 0) with-change=$WITH (want !=0) build=$BUILD suite=$SUITE (want 0)"
+echo "$ID/$L: demo clean=$CLEAN (want 0) with-change=$WITH (want !=0) build=$BUILD suite=$SUITE (want 0)"
 BIN=${SEED_BIN:-/tmp/sv/wacheck.bin}
 for c in $CHECKS; do
-  ( cd /verif && VERIF_DIR=/verif VERIF_REPO=$WT VERIF_NO_EVIDENCE=1 $BIN check $c --tier quick ) > /tmp/sv/${ID}_$N.$c.out 2>&1; rc=$?
-  echo "  check $c exit=$rc $(grep -c '^  VIOLATION\|^  UNDECIDED' /tmp/sv/${ID}_$N.$c.out) report lines"
-  grep '^  VIOLATION\|^  UNDECIDED' /tmp/sv/${ID}_$N.$c.out | head -4 | cut -c1-400
+  ( cd /verif && VERIF_DIR=/verif VERIF_REPO=$WT VERIF_NO_EVIDENCE=1 $BIN check $c --tier quick ) > /tmp/sv/${ID}_$L.$c.out 2>&1; rc=$?
+  echo "  check $c exit=$rc $(grep -c '^  VIOLATION\|^  UNDECIDED' /tmp/sv/${ID}_$L.$c.out) report lines"
+  grep '^  VIOLATION\|^  UNDECIDED' /tmp/sv/${ID}_$L.$c.out | head -4 | cut -c1-400
 done
 git -C /repo worktree remove --force $WT
